@@ -18,6 +18,10 @@
   OBLIGATION c18_roundtrip_wf
   OBLIGATION c18_roundtrip_refuted
   OBLIGATION c18_single_pass_differs
+  OBLIGATION c18_container_wrappers
+  OBLIGATION c18_container_registered_text
+  OBLIGATION c18_container_hashset_variant_differs
+  OBLIGATION c18_witness_pointer_option_in_list
 
   `c18_roundtrip` as first stated (ALL descriptions) is refuted (`c18_roundtrip_refuted`: a union
   over a scalar); the law is proved for well-formed descriptions (`c18_roundtrip_wf`).
@@ -26,6 +30,8 @@
   the remaining toggles are universally quantified where they do not matter.
 -/
 import AGV.Lemmas.Introspect
+import AGV.Lemmas.RustTy
+import AGV.Model.RustTyRef
 
 namespace AGV.Props.C18
 open AGV AGV.Core AGV.Model.Introspect AGV.Spec.Introspect AGV.Lemmas.Introspect
@@ -476,5 +482,70 @@ example : WellFormed
                  { name := "E", kind := .enum, values := [{ name := "A", desc := none, dep := .no, vis := .never }] },
                  { name := "In", kind := .input, oneOf := true } ] } := by
   constructor <;> decide
+
+-- ------------------------------------------------------------------ declared Rust types (derive-built schemas)
+
+section Containers
+open AGV.Core.RustTy
+
+/-- THE WRAPPER-CHAIN RULE FOR CONTAINERS, all declared types: an argument, input field or field
+    declared with Rust type `t` (named types, `Vec` / `VecDeque` / `LinkedList` / `HashSet` /
+    `BTreeSet` / arrays / slices, `Option`, `MaybeUndefined`, `Box` / `Arc` / `&`, nested to any
+    depth) is registered by the repaired `type_name` / `qualified_type_name` / `create_type_info`
+    with a type whose served `ofType` chain decodes to the reference the declaration means; and
+    that reference is: a named type is non-null; a container is a non-null list of its element's
+    reference (`[inner!]!` for a non-null element); `Option` / `MaybeUndefined` strip exactly the
+    outer `!` (`[inner!]`); pointers change nothing. -/
+theorem c18_container_wrappers (ts : List IType) (t : RTy) :
+    decodeRef (refT ts (Model.RustTy.created .none t).toTypeRef) = (Spec.RustTy.ref t).toTypeRef ∧
+    (∀ n, Spec.RustTy.ref (.leaf n) = .nonNull (.named n)) ∧
+    (∀ k, Spec.RustTy.ref (.list k t) = .nonNull (.list (Spec.RustTy.ref t))) ∧
+    (∀ k, Spec.RustTy.ref (.option (.list k t)) = .list (Spec.RustTy.ref t)) ∧
+    (∀ k, Spec.RustTy.ref (.undef (.list k t)) = .list (Spec.RustTy.ref t)) ∧
+    Spec.RustTy.ref (.option t) = (Spec.RustTy.ref t).nullable ∧
+    Spec.RustTy.ref (.undef t) = (Spec.RustTy.ref t).nullable ∧
+    (∀ p, Spec.RustTy.ref (.ptr p t) = Spec.RustTy.ref t) := by
+  refine ⟨?_, ?_, ?_, ?_, ?_, ?_, ?_, ?_⟩
+  · rw [decodeRef_refT, AGV.Lemmas.RustTy.created_none]
+  · intro n; simp [Spec.RustTy.ref, Spec.RustTy.core, Spec.RustTy.nullable]
+  · intro k; simp [Spec.RustTy.ref, Spec.RustTy.core, Spec.RustTy.nullable]
+  · intro k; simp [Spec.RustTy.ref, Spec.RustTy.core, Spec.RustTy.nullable]
+  · intro k; simp [Spec.RustTy.ref, Spec.RustTy.core, Spec.RustTy.nullable]
+  · rw [AGV.Lemmas.RustTy.ref_option, AGV.Lemmas.RustTy.ref_nullable]
+  · rw [AGV.Lemmas.RustTy.ref_undef, AGV.Lemmas.RustTy.ref_nullable]
+  · intro p; exact AGV.Lemmas.RustTy.ref_ptr p t
+
+/-- … and the STRING the registry stores (built with `format!("[{}]", …)` / `format!("{}!", …)`
+    exactly as the code does) is the rendering of that reference -/
+theorem c18_container_registered_text (t : RTy) :
+    Model.RustTy.createdS .none t = (Spec.RustTy.ref t).toTypeRef.render := by
+  rw [RRef.toTypeRef_render, ← Model.RustTy.created_render, AGV.Lemmas.RustTy.created_none]
+
+/-- the seeded variant (`HashSet<T>::type_name` built from `T::type_name()`): `Option<HashSet<i32>>`
+    and `MaybeUndefined<HashSet<i32>>` lose the inner `!` (`[Int]` instead of `[Int!]`), while
+    `HashSet<i32>`, `Vec<HashSet<i32>>` and `Option<Vec<i32>>` are unaffected -/
+theorem c18_container_hashset_variant_differs :
+    let D : Model.RustTy.Defects := { hashSetInnerTypeName := true }
+    let int := RTy.leaf "Int"
+    Model.RustTy.created D (.option (.list .hashSet int)) = .list (.named "Int") ∧
+    Spec.RustTy.ref (.option (.list .hashSet int)) = .list (.nonNull (.named "Int")) ∧
+    Model.RustTy.created D (.undef (.list .hashSet int)) ≠ Spec.RustTy.ref (.undef (.list .hashSet int)) ∧
+    Model.RustTy.created D (.list .hashSet int) = Spec.RustTy.ref (.list .hashSet int) ∧
+    Model.RustTy.created D (.option (.list .vec (.list .hashSet int))) = Spec.RustTy.ref (.option (.list .vec (.list .hashSet int))) ∧
+    Model.RustTy.created D (.option (.list .vec int)) = Spec.RustTy.ref (.option (.list .vec int)) := by
+  decide
+
+/-- the pinned tree (`Box<T>` / `Arc<T>` / `&T` keep the default `qualified_type_name`): a list of
+    boxed options declares non-null elements, `Vec<Box<Option<i32>>>` is served as `[Int!]!` -/
+theorem c18_witness_pointer_option_in_list :
+    let D : Model.RustTy.Defects := { ptrQualifiedDefault := true }
+    let t := RTy.list .vec (.ptr .box (.option (.leaf "Int")))
+    Model.RustTy.created D t = .nonNull (.list (.nonNull (.named "Int"))) ∧
+    Spec.RustTy.ref t = .nonNull (.list (.named "Int")) ∧
+    Model.RustTy.createdS D t = "[Int!]!" ∧
+    Model.RustTy.created D (.ptr .box (.option (.leaf "Int"))) = Spec.RustTy.ref (.ptr .box (.option (.leaf "Int"))) := by
+  decide
+
+end Containers
 
 end AGV.Props.C18
